@@ -13,3 +13,4 @@ import TeosVerif.Props.C01
 #print axioms Teos.C01.breach_call_sites_are_the_modelled_ones
 #print axioms Teos.C01.every_tracker_carries_its_appointments_breach
 #print axioms Teos.C01.cache_holds_only_connected_transactions
+#print axioms Teos.C01.boot_lookups_cover_the_most_recent_blocks
